@@ -1,6 +1,6 @@
 ------------------------------- MODULE GenList ------------------------------
 (***************************************************************************)
-(* Input family for C14: every list of 1..MaxLen entries over two ordinary *)
+(* Input family for C14: every list of 0..MaxLen entries over two ordinary *)
 (* names and the terminator, each with a multiplier from Muls (0 = none    *)
 (* written), plus every single-entry and every (x, boundary) list over the *)
 (* boundary multipliers.  Multipliers are texts: the harness writes them   *)
@@ -14,7 +14,7 @@ Muls  == {"", "2", "3"}
 Boundary == {"0", "1", "9999", "10000", "0x10", "-1", "0x270F", "0x2710"}
 
 Entry == [name : Names, mul : Muls]
-Lists == UNION {[1..n -> Entry] : n \in 1..MaxLen}
+Lists == UNION {[1..n -> Entry] : n \in 0..MaxLen}
 Edge  == {<<[name |-> x, mul |-> m]>> : x \in Names, m \in Boundary}
          \cup {<<[name |-> x, mul |-> ""], [name |-> y, mul |-> m]>> : x \in Names, y \in Names, m \in Boundary}
          \cup {<<[name |-> y, mul |-> m], [name |-> x, mul |-> "2"]>> : x \in Names, y \in Names, m \in Boundary}
